@@ -45,6 +45,9 @@ pub enum Op {
     CancelFetched(u16),
     /// `fetch_next_if` with a predicate that refuses: nothing may change (incl. the queue time)
     FetchRefused,
+    /// cancel a pending event whose payload's destructor panics (once); the panic is caught and the queue is used on.
+    /// For payload types without a faulting destructor this is a plain cancel.
+    CancelFaulty(u16),
 }
 
 #[derive(Clone, Debug, Serialize, Deserialize, PartialEq)]
@@ -93,6 +96,7 @@ pub fn op_strategy() -> impl Strategy<Value = Op> {
         5 => Just(Op::Fetch),
         1 => any::<u16>().prop_map(Op::CancelFetched),
         2 => Just(Op::FetchRefused),
+        1 => any::<u16>().prop_map(Op::CancelFaulty),
     ]
 }
 
@@ -104,7 +108,14 @@ thread_local! {
     pub static DROPS: RefCell<Vec<u32>> = const { RefCell::new(Vec::new()) };
 }
 
+thread_local! {
+    /// when set, the next destructor of a `FaultyDrop` payload panics (after counting the drop)
+    pub static FAULT_ARMED: std::cell::Cell<bool> = const { std::cell::Cell::new(false) };
+}
+
 pub trait Payload: Sized {
+    /// the destructor can be made to panic through FAULT_ARMED
+    const CAN_FAULT: bool = false;
     const TRACKS_DROP: bool;
     const MAX_IDS: u32;
     const NAME: &'static str;
@@ -197,6 +208,44 @@ define_payload!(P500A2D, 500, 2, true);
 define_payload!(P1000A16D, 1000, 16, true);
 define_payload!(P2000A8D, 2000, 8, true);
 
+/// A payload whose destructor panics on demand (after counting the drop).
+pub struct FaultyDrop {
+    id: u32,
+    pad: [u32; 3],
+}
+
+impl Payload for FaultyDrop {
+    const CAN_FAULT: bool = true;
+    const TRACKS_DROP: bool = true;
+    const MAX_IDS: u32 = u32::MAX;
+    const NAME: &'static str = "FaultyDrop";
+    fn make(id: u32) -> Self {
+        FaultyDrop { id, pad: [id ^ 0x5a5a_5a5a; 3] }
+    }
+    fn id(&self) -> u32 {
+        self.id
+    }
+    fn intact(&self) -> bool {
+        self.pad == [self.id ^ 0x5a5a_5a5a; 3]
+    }
+}
+
+impl Drop for FaultyDrop {
+    fn drop(&mut self) {
+        let id = self.id as usize;
+        DROPS.with(|d| {
+            let mut d = d.borrow_mut();
+            if d.len() <= id {
+                d.resize(id + 1, 0);
+            }
+            d[id] += 1;
+        });
+        if FAULT_ARMED.with(|f| f.replace(false)) {
+            panic!("injected destructor fault of payload {id}");
+        }
+    }
+}
+
 /// A payload owning heap memory (a `String` and a `Vec`): double drops / leaks become
 /// visible to the drop counter and, under ASan, to the allocator.
 pub struct Heapy {
@@ -244,6 +293,7 @@ impl Drop for Heapy {
 pub struct Flags {
     pub fetches: u32,
     pub refused: u32,
+    pub faulty_cancels: u32,
     pub cancel_after_fetch: bool,
     pub tie_current: bool,
     pub cancel_at_current_indexed: bool,
@@ -366,7 +416,9 @@ pub fn check_structure(s: &Snapshot) -> Result<(), Failure> {
     Ok(())
 }
 
-pub fn check_memory(s: &Snapshot) -> Result<(), Failure> {
+/// `leak_allowance`: number of nodes whose memory may be unaccounted for (released neither to the free list nor
+/// in use) because a payload destructor unwound in the middle of a release.
+pub fn check_memory(s: &Snapshot, leak_allowance: usize) -> Result<(), Failure> {
     let (size, align) = s.node_layout_rounded;
     let a = &s.alloc;
     let mut pages: Vec<usize> = a.pages.clone();
@@ -433,7 +485,7 @@ pub fn check_memory(s: &Snapshot) -> Result<(), Failure> {
         );
     }
     vensure!(
-        a.allocated_mem == live * size,
+        a.allocated_mem >= live * size && a.allocated_mem <= (live + leak_allowance) * size && (a.allocated_mem - live * size) % size == 0,
         "allocated-mem-mismatch",
         "allocated_mem {} but {} live nodes of {} bytes",
         a.allocated_mem,
@@ -467,6 +519,7 @@ pub fn interpret<E: Payload>(params: &QParams, ops: &[Op], opt: &Options) -> Res
     let mut seen_addrs: BTreeSet<usize> = BTreeSet::new();
     let mut freed_addrs: BTreeSet<usize> = BTreeSet::new();
     let mut last_nodes: BTreeMap<usize, usize> = BTreeMap::new(); // id -> addr
+    let mut leaked_nodes = 0usize;
 
     let total_ops = ops.len();
     let mut step = 0usize;
@@ -545,7 +598,8 @@ pub fn interpret<E: Payload>(params: &QParams, ops: &[Op], opt: &Options) -> Res
                 });
                 seq += 1;
             }
-            Op::Cancel(i) | Op::CancelAtCurrent(i) => {
+            Op::Cancel(i) | Op::CancelAtCurrent(i) | Op::CancelFaulty(i) => {
+                let faulty = matches!(op, Op::CancelFaulty(_)) && E::CAN_FAULT;
                 let candidates: Vec<usize> = match op {
                     Op::CancelAtCurrent(_) => pending
                         .iter()
@@ -573,7 +627,24 @@ pub fn interpret<E: Payload>(params: &QParams, ops: &[Op], opt: &Options) -> Res
                     zero_fifo.retain(|x| *x != p.id);
                 }
                 let h = handles.remove(&p.id).expect("handle of pending event");
-                q.cancel(h);
+                if faulty {
+                    flags.faulty_cancels += 1;
+                    FAULT_ARMED.with(|f| f.set(true));
+                    let r = crate::engine::catch(|| q.cancel(h));
+                    let fired = !FAULT_ARMED.with(|f| f.replace(false));
+                    vensure!(
+                        r.is_err() == fired,
+                        "harness-fault-injection",
+                        "destructor fault fired = {fired} but cancel unwound = {}",
+                        r.is_err()
+                    );
+                    if fired {
+                        // the node's memory may be leaked by the unwinding, never handed out twice
+                        leaked_nodes += 1;
+                    }
+                } else {
+                    q.cancel(h);
+                }
                 gone.insert(p.id);
             }
             Op::CancelFetched(i) => {
@@ -719,7 +790,7 @@ pub fn interpret<E: Payload>(params: &QParams, ops: &[Op], opt: &Options) -> Res
                 );
             }
             if opt.memory {
-                check_memory(&snap)?;
+                check_memory(&snap, leaked_nodes)?;
                 flags.pages = flags.pages.max(snap.alloc.pages.len());
                 let mut now: BTreeMap<usize, usize> = BTreeMap::new();
                 for b in &snap.buckets {
